@@ -561,8 +561,24 @@ class Interp:
         raise Unsupported(f"method {name} on an unmodelled value", n.get("sp"))
 
 
-def decide(nb, local_fn=None, bound=BOUND):
-    """Returns (n_inputs, {kind: (input, output, reason)}, n_classes): the shortest counterexample of each kind of illegality."""
+def legal_ncname(dom, s):
+    """None when `s` can be used as an XML namespace prefix (an NCName: it starts with a letter or `_` and goes on with letters,
+    digits, `.`, `-`, `_`; the alphabetic classes of the frozen table stand for the letters), else the reason."""
+    if s == "":
+        return "the result is empty"
+    if not (s[0] == "_" or dom.has(s[0], "alphabetic") and dom.has(s[0], "xs")):
+        return f"the result starts with {s[0]!r} (U+{ord(s[0]):04X}), which is not a letter or `_`"
+    for c in s[1:]:
+        if not (c in "._-" or dom.has(c, "xc")):
+            return f"the result contains {c!r} (U+{ord(c):04X}), which an XML name cannot hold"
+    if s[:3].lower() == "xml":
+        return None      # (reserved, but accepted by parsers; not judged)
+    return None
+
+
+def decide(nb, local_fn=None, bound=BOUND, legal=None):
+    """Returns (n_inputs, {kind: (input, output, reason)}, n_classes): the shortest counterexample of each kind of illegality.
+    `legal(domain, text)` judges a result (default: a Rust identifier)."""
     chars, ranges, strs = set(), set(), set()
     collect_literals(nb, chars, ranges, strs)
     seen = set()
@@ -586,7 +602,7 @@ def decide(nb, local_fn=None, bound=BOUND):
             out = ip.call_fn(nb, [s])
             if not isinstance(out, str) or isinstance(out, Ch):
                 raise Unsupported("the guard does not return a string")
-            why = dom.legal(out)
+            why = dom.legal(out) if legal is None else legal(dom, out)
             if why:
                 kind = "empty" if out == "" else "underscore" if out == "_" else "start" if "starts with" in why else "continue"
                 cex.setdefault(kind, (s, out, why))
